@@ -108,7 +108,28 @@ def r3(cx):
     b = f.body("Strategy::select_tables_for_compaction")
     pushes = [c for c in b.calls_to("std::vec::Vec::push") if c.bb in b.live]
     cx.floor("selection pushes", len(pushes), 3)
-    # L0: every table of the level is pushed: the first push sits in a loop over source_level.tables and is only guarded by the dedupe set
+    # L0: every table of the level is pushed: the first push sits in a loop over source_level.tables and is only guarded by the dedupe set.
+    # L0 files overlap and are ordered newest first; a merge that takes only SOME of them moves newer versions below older
+    # ones that stay in L0, and point lookups (L0 before L1, first hit wins) then answer with the stale version.  Decided:
+    # the loop that selects straight from the source level's own table list walks the plain slice iterator (no take /
+    # skip / filter / step_by adaptor) and is left only when that iterator is exhausted.
+    src_param = [l for l in range(1, b.argc + 1) if b.local_name(l) == "source_level"] or [2]
+    direct = []
+    for c in b.calls:
+        if c.bb in b.live and c.primary.endswith("Iterator>::next") and b.in_cycle(c.bb) and c.args:
+            o = origin_of_operand(b, c.args[0], through_calls="all")
+            if src_param[0] in {pl for pl, _ in o.params} and not any(x.primary.split("::")[-1] in ("overlapping_tables", "combined_key_range") for x in o.calls) and not (o.call_names() & {"Strategy::select_best_table_for_compaction", "Strategy::select_overlapping_ranges"}):
+                cyc = loop_of(b, c.bb)
+                if any(p_.bb in cyc for p_ in pushes):
+                    direct.append((c, o))
+    cx.floor("loops that select straight from the source level's table list", len(direct), 1)
+    for c, o in direct:
+        adaptors = sorted({x.primary.split("::")[-1] for x in o.calls} & {"take", "skip", "filter", "step_by", "take_while", "skip_while", "rev", "filter_map", "chain", "zip"})
+        plain = "slice::Iter" in c.primary or "std::slice::Iter" in (c.callee.get("a") or "")
+        cx.check(plain and not adaptors, "the L0 selection walks the level's whole table list (plain slice iterator)", "l0-selection-partial", c.where(),
+                 "the L0 -> L1 selection iterates `source_level.tables` through %s: only part of the overlapping L0 files is merged, so L1 receives NEWER versions than files "
+                 "that stay in L0, and a point lookup (L0 first, first hit wins) returns the stale version or resurrects a deleted key" % (", ".join(adaptors) or "a non-slice iterator"))
+        exhaustive_loop(cx, b, c, "the L0 selection loop visits every table of the level", "l0-selection-partial|early-exit", ok_exit_blocks=None)
     ck = sites(cx, b, "Strategy::combined_key_range")
     ov = sites(cx, b, "Level::overlapping_tables")
     for c in ov:
